@@ -247,6 +247,7 @@ pub fn run(ctx: &mut Ctx) {
     let reg = registry();
     let bad = bad_points();
     let sams = samples(ctx);
+    channel_id_text_case(ctx, 8192 * ctx.nshards + ctx.shard, false);
     let mut seen: std::collections::BTreeSet<&str> = Default::default();
     for (i, (name, bytes)) in sams.iter().enumerate() {
         let e = match reg.iter().find(|e| e.name == *name) { Some(e) => e, None => { ctx.broken(&format!("type {} not in the registry", name)); continue; } };
@@ -373,6 +374,7 @@ pub fn run(ctx: &mut Ctx) {
 pub fn run_c16(ctx: &mut Ctx) {
     let reg = registry();
     let sams = samples(ctx);
+    channel_id_text_case(ctx, 8192 * ctx.nshards + ctx.shard, true);
     for (i, (name, bytes)) in sams.iter().enumerate() {
         let e = match reg.iter().find(|e| e.name == *name) { Some(e) => e, None => continue };
         let mine = if ctx.thorough() { i % 4 == ctx.shard % 4 } else { i % ctx.nshards == ctx.shard };
@@ -461,6 +463,86 @@ pub fn run_c16(ctx: &mut Ctx) {
             }
             if over != model_over {
                 ctx.disagreements.push(json!({"kind": "model-vs-implementation", "case": ctx.case_id, "what": format!("allocation class differs for {} ({}): real largest request {} bytes, model {} elements", name, what, maxalloc, model_alloc)}));
+            }
+        }
+    }
+}
+
+/// `ChannelId`'s text form (`Display` / `FromStr`, standard base64) — the one hand-written text codec of the two crates.
+/// Oracle: the `base64` crate itself (`encode`, `decode`), which is not part of the code under test.
+/// `robust = false` (C15): every id prints as base64 of its 32 bytes and parses back to itself.
+/// `robust = true` (C16): every text - honest, truncated, extended, payloads of every length 0..=70 and long ones,
+/// altered characters, other alphabets, missing / surplus padding, random - parses to a value or an error, never panics,
+/// and is accepted exactly when it is base64 of 32 bytes.
+fn channel_id_text_case(ctx: &mut Ctx, idx: usize, robust: bool) {
+    if !ctx.begin_case(idx, if robust { "untrusted-ChannelId-text" } else { "roundtrip-ChannelId-text" }) {
+        return;
+    }
+    use std::str::FromStr;
+    use zkabacus_crypto::ChannelId;
+    let mut ids: Vec<[u8; 32]> = vec![[0u8; 32], [0xff; 32], [0xfb; 32], [0x3e; 32]];
+    for _ in 0..6 { let mut b = [0u8; 32]; ctx.prng.fill(&mut b); ids.push(b); }
+    let mut texts: Vec<(String, String)> = vec![];
+    for b in &ids {
+        let id: ChannelId = wire::de(b).expect("channel id");
+        let text = id.to_string();
+        ctx.evals += 1;
+        if text != base64::encode(b) {
+            ctx.violation("a channel id does not print as the standard base64 of its 32 bytes", json!({"class": "channel-id-text-not-base64", "id": hex::encode(b), "text": text}));
+        }
+        match std::panic::catch_unwind(|| ChannelId::from_str(&text)) {
+            Ok(Ok(back)) if back.to_bytes() == *b => ctx.count("channel-id-text:roundtrip"),
+            Ok(Ok(_)) => ctx.violation("a channel id's text parses to a different id", json!({"class": "channel-id-text-roundtrip", "id": hex::encode(b), "text": text})),
+            Ok(Err(e)) => ctx.violation(&format!("a channel id's own text does not parse: {}", e), json!({"class": "channel-id-text-roundtrip", "id": hex::encode(b), "text": text})),
+            Err(_) => ctx.violation("parsing a channel id's own text panics", json!({"class": "channel-id-text-panics", "text": text})),
+        }
+        if !robust { continue; }
+        texts.push(("honest".into(), text.clone()));
+        for cut in [0usize, 1, 2, 3, 4, 40, 42, 43] { texts.push((format!("truncated-to-{}", cut), text[..cut].to_string())); }
+        texts.push(("honest-without-padding".into(), text.trim_end_matches('=').to_string()));
+        texts.push(("honest-with-surplus-padding".into(), format!("{}=", text)));
+        texts.push(("honest-then-more-base64".into(), format!("{}AAAA", text)));
+        texts.push(("honest-unpadded-then-more-base64".into(), format!("{}AAAA", text.trim_end_matches('='))));
+        texts.push(("honest-with-whitespace".into(), format!(" {}\n", text)));
+        texts.push(("url-safe-alphabet".into(), text.replace('+', "-").replace('/', "_")));
+        let pos = ctx.prng.gen_range(0..text.len());
+        for c in ['=', '-', '_', ' ', '\0', '\u{e9}', 'A', '/'] {
+            let mut t: Vec<char> = text.chars().collect();
+            t[pos] = c;
+            texts.push((format!("character-{}-replaced", pos), t.into_iter().collect()));
+        }
+    }
+    if robust {
+        // base64 of every payload length around 32, and long ones
+        for n in (0usize..=70).chain([96, 255, 256, 1024, 65536]) {
+            let payload: Vec<u8> = (0..n).map(|_| ctx.prng.gen()).collect();
+            texts.push((format!("base64-of-{}-bytes", n), base64::encode(&payload)));
+            if n % 3 != 0 { texts.push((format!("unpadded-base64-of-{}-bytes", n), base64::encode_config(&payload, base64::STANDARD_NO_PAD))); }
+        }
+        for _ in 0..40 {
+            let n = ctx.prng.gen_range(0..90);
+            let alphabet: Vec<char> = "ABCDEFGHIJKLMNOPQRSTUVWXYZabcdefghijklmnopqrstuvwxyz0123456789+/=".chars().collect();
+            texts.push(("random-alphabet-text".into(), (0..n).map(|_| alphabet[ctx.prng.gen_range(0..alphabet.len())]).collect()));
+        }
+        texts.push(("empty".into(), String::new()));
+    }
+    for (what, text) in texts {
+        ctx.evals += 1;
+        let oracle: Option<[u8; 32]> = base64::decode(&text).ok().and_then(|v| if v.len() == 32 { let mut a = [0u8; 32]; a.copy_from_slice(&v); Some(a) } else { None });
+        let t2 = text.clone();
+        let real = std::panic::catch_unwind(move || ChannelId::from_str(&t2).map(|id| id.to_bytes()).map_err(|e| e.to_string()));
+        let shown: String = if text.len() > 200 { format!("{}… ({} characters)", &text[..200], text.len()) } else { text.clone() };
+        match real {
+            Err(_) => {
+                ctx.count(&format!("channel-id-text:{}:PANIC", what.split('-').next().unwrap()));
+                ctx.violation(&format!("parsing a channel id from text ({}) panics", what), json!({"class": "decode-panics", "type": "ChannelId (text)", "input": what, "text": shown}));
+            }
+            Ok(r) => {
+                ctx.count(&format!("channel-id-text:{}", if r.is_ok() { "parsed" } else { "error" }));
+                if r.as_ref().ok() != oracle.as_ref() {
+                    ctx.violation(&format!("parsing a channel id from text ({}) {} although the text {} base64 of 32 bytes", what, if r.is_ok() { "succeeds" } else { "fails" }, if oracle.is_some() { "is" } else { "is not" }),
+                        json!({"class": "channel-id-text-acceptance", "input": what, "text": shown}));
+                }
             }
         }
     }
